@@ -545,7 +545,8 @@ def check_onehot_range(ctx, chk):
     ip = Interp(ctx.repo, ctx.types, param_types={"self": "ScenarioGenerator"})
     s = ip.run(gen)
     cn = Canon(ip, ctx.layout)
-    tests = [f_show(cn.formula(ev.data["test"])) for ev in s.events if ev.kind == "assert"]
+    from .loaderfacts import extract_guards, closed
+    tests = [f_show(closed(g.F, g.loops)) for g in extract_guards(ip, cn, s.events)]
     P = gen.params[1]
     need = [f"!tuple(({P} is None ? (len(self.subnets), max(self.subnets)) : {P}))[0]"
             f"<len(self.subnets)",
